@@ -105,6 +105,13 @@ func (e *c20Env) open() error {
 			e.def = l
 		}
 	}
+	// every other environment configures the middleware with the With* methods
+	rb := func() resbadger.BadgerDB {
+		if e.seq%2 == 1 {
+			return resbadger.BadgerDB{}.WithDB(db)
+		}
+		return resbadger.BadgerDB{DB: db}
+	}
 	e.rig = newRig("svc", func(s *res.Service) {
 		var opt res.Option
 		switch {
@@ -126,9 +133,9 @@ func (e *c20Env) open() error {
 			idxs.ListenIndex("idxk", func(r res.Resource, before, after interface{}) {
 				e.idxL = append(e.idxL, fmt.Sprintf("idxk:%s:%s>%s", r.ResourceName(), jsonStr(before), jsonStr(after)))
 			})
-			e.model = resbadger.BadgerDB{DB: db}.Model().WithType(c20Item{}).WithIndexSet(idxs)
+			e.model = rb().Model().WithType(c20Item{}).WithIndexSet(idxs)
 			opt = e.model
-			s.Handle("q", resbadger.BadgerDB{DB: db}.QueryCollection().WithIndexSet(idxs).WithQueryCallback(
+			s.Handle("q", rb().QueryCollection().WithIndexSet(idxs).WithQueryCallback(
 				func(idxs *resbadger.IndexSet, rname string, params map[string]string, q url.Values) (*resbadger.IndexQuery, string, error) {
 					idx, err := idxs.GetIndex("idxk")
 					if err != nil {
@@ -144,6 +151,9 @@ func (e *c20Env) open() error {
 		case cfg.Pkg == "middleware":
 			// the middleware package needs the resource type set first
 			m := middleware.BadgerDB{DB: db}
+			if e.seq%2 == 1 {
+				m = middleware.BadgerDB{}.WithDB(db)
+			}
 			if cfg.Default {
 				m = m.WithDefault(e.def)
 			}
@@ -153,13 +163,13 @@ func (e *c20Env) open() error {
 				opt = res.OptionFunc(func(h *res.Handler) { res.Collection.SetOption(h); m.SetOption(h) })
 			}
 		case cfg.Type == "model":
-			m := resbadger.BadgerDB{DB: db}.Model()
+			m := rb().Model()
 			if cfg.Default {
 				m = m.WithDefault(e.def)
 			}
 			opt = m
 		default:
-			m := resbadger.BadgerDB{DB: db}.Collection()
+			m := rb().Collection()
 			if cfg.Default {
 				m = m.WithDefault(e.def)
 			}
